@@ -425,6 +425,10 @@ def items(ctx):
         out.append((st, [["commit", "commit"], ["commit"]], bound, cap))
         out.append((st, [["commit"], ["commit"], ["commit"]], ctx.scale(1, 2), cap))
         out.append((st, [["commit"], ["pack"], ["read"]], ctx.scale(1, 2), cap))
+    # the first commit of a branch races with another first commit AND a packer: the rival's branch may be created and
+    # packed between one actor's resolution of HEAD and its lock (three actors, one preemption)
+    out.append(("absent", [["commit"], ["commit"], ["pack"]], ctx.scale(1, 2), ctx.scale(500, 20000)))
+    out.append(("absent", [["add(v1)"], ["add(v2)"], ["pack"]], ctx.scale(1, 2), ctx.scale(300, 20000)))
     return out
 
 
